@@ -33,7 +33,8 @@ func vpH_C09_retention_time_size() {
 		b.meta.ULID = ulid.ULID{byte(i + 1)}
 		b.meta.MaxTime = vpInt64()
 		vpAssume(vpAnd(b.meta.MaxTime > -(1<<62), b.meta.MaxTime < 1<<62)) // differences of two block times do not wrap
-		b.meta.MinTime = b.meta.MaxTime - 1
+		b.meta.MinTime = vpInt64() // nested / overlapping layouts allowed: only MinTime < MaxTime
+		vpAssume(vpAnd(b.meta.MinTime > -(1<<62), b.meta.MinTime < b.meta.MaxTime))
 		b.numBytesChunks = vpInt64()
 		vpAssume(vpAnd(b.numBytesChunks >= 0, b.numBytesChunks < 1<<50))
 		b.meta.Compaction.Deletable = vpBool()
